@@ -74,7 +74,7 @@ C[0-9][0-9])
     TIER="${2:-quick}"
     build_harness || exit 2
     case "$ID" in
-    C01 | C02 | C06 | C08 | C09 | C11 | C12 | C13 | C15 | C16)
+    C01 | C02 | C06 | C08 | C09 | C10 | C11 | C12 | C13 | C15 | C16)
         build_product || exit 2
         ;;
     esac
